@@ -3,7 +3,7 @@
    blob/packer.rs (BasicPacker/RawPacker) and commands/repair/index.rs; the constants come
    from Extracted.v, regenerated from the source on every run. *)
 From Verif.Base Require Import Tactics.
-From Verif.C08 Require Import Extracted Model Spec ProofsCodec ProofsPacker ProofsFromFile.
+From Verif.C08 Require Import Extracted Model Spec ProofsCodec ProofsPacker ProofsFromFile ProofsRebuild Repack ProofsRepack Writer ProofsWriter.
 Local Open Scope N_scope.
 
 (* Parsing the binary header of any list of index blobs gives the same blobs back, with the
@@ -74,21 +74,83 @@ Theorem from_file_hint_underflow : forall (dec : bytes -> option bytes) rp hint 
 Proof. exact from_file_underflow. Qed.
 Print Assumptions from_file_hint_underflow.
 
-(* repair-index after ALL index files were deleted: the rebuilt index lists, for every pack of
-   the listing, exactly the blobs the packer recorded (same order, offsets, lengths, types);
-   delete marks and pack times are not recoverable.
-   Full statement (NOT proved, see NOTES.md): for an arbitrary set of remaining index entries
-   that agree with their packs the result has the same entry set
-     forall index, (forall pid bs, In (pid, bs) index -> In pid (map fst packs) -> In (pid, (f, bs)) packs) ->
-       exists r, rebuild_index dec ra listing index = Ok r /\ (forall e, In e r <-> In e (map ... packs)). *)
-Theorem rebuild_index_equals_index_partial : forall (enc : bytes -> bytes) (dec : bytes -> option bytes) read_all
-    (packs : list (id * (bytes * list iblob))),
+(* repair-index, for ANY subset of index files removed (and any stale or duplicated entries left):
+   `packs` are the pack files of the backend, each a well-formed pack (what packer_pack_wellformed
+   gives) named by its id; `index` is whatever index entries remain, each with a computable size
+   and - if the pack it names exists - listing that pack's blobs.  Then PackChecker::check_pack over
+   all entries followed by PackHeader::from_file on every pack not kept (hint = header size of the
+   index entry, or none for unindexed packs; read_all or not) neither panics nor errs and yields,
+   up to order, exactly one entry per existing pack with exactly the packer's blobs; hence the same
+   set of (pack, type, id, offset, length, uncompressed length) tuples as the lost index had for
+   existing packs.  Delete marks and pack times are not recoverable from packs (not claimed). *)
+Theorem rebuild_index_equals_index : forall (enc : bytes -> bytes) (dec : bytes -> option bytes) read_all
+    (packs : list pk) (index : list ipack),
   (forall x, dec (enc x) = Some x) -> (forall x, length (enc x) = (length x + 32)%nat) ->
   Forall (good_pack enc) packs ->
-  rebuild_index dec read_all (map (fun p => (fst p, fst (snd p))) packs) []
-  = Ok (map (fun p => (fst p, snd (snd p))) packs).
-Proof. exact (fun enc dec ra packs H1 H2 => rebuild_all_deleted_lemma enc dec H1 H2 ra packs). Qed.
-Print Assumptions rebuild_index_equals_index_partial.
+  Forall (entry_agrees packs) index ->
+  exists r, rebuild_index dec read_all (listing_of packs) index = Ok r /\
+            Permutation r (truth_of packs) /\
+            Permutation (entries_of r) (entries_of (truth_of packs)).
+Proof. exact (fun enc dec ra packs index H1 H2 H3 => rebuild_index_entries_lemma enc dec H1 H2 packs H3 ra index). Qed.
+Print Assumptions rebuild_index_equals_index.
+
+(* The repacker (prune repack, copy): for EVERY list of (source pack, location, blob id) - in the
+   order sort_unstable() gives or any other -, every pack store and every blob decoder
+   (identity for copy_fast; decrypt + decompress for copy), if coalescing the reads
+   (CopyPackBlobs::coalesce / BlobLocations::coalesce under itertools' coalesce) and slicing each
+   read back into blobs ends without panic or error, the blobs handed to the target packer are, in
+   order, exactly (id, decode (bytes of the pack at [offset, offset+length)), uncompressed length)
+   of each entry, and each such range lies inside its pack. *)
+Theorem repack_preserves_blobs : forall (store : id -> option bytes) (decode : bytes -> option N -> option bytes)
+    (es : list centry) (out : list handed),
+  repack true store decode es = Ok out ->
+  Forall2 (fun e h => expected_of store decode e = Some h) es out.
+Proof. exact repack_preserves_blobs_lemma. Qed.
+Print Assumptions repack_preserves_blobs.
+
+(* ... and it does end that way whenever every blob lies inside its (existing) pack, decodes, and
+   packs are shorter than 2^32 - MAX_HOLESIZE bytes (guaranteed by the packer's MAX_SIZE): no panic
+   of the unchecked u32 sums in can_coalesce/append/slicing, no failed read. *)
+Theorem repack_total : forall (store : id -> option bytes) (decode : bytes -> option N -> option bytes) (es : list centry),
+  Forall (entry_inside store decode) es -> exists out, repack true store decode es = Ok out.
+Proof. exact repack_total_lemma. Qed.
+Print Assumptions repack_total.
+
+(* The `self.pack_id == other.pack_id` conjunct of CopyPackBlobs::coalesce is necessary: without it
+   (repack false) a sorted two-blob list from two packs hands a blob the bytes of the wrong pack. *)
+Theorem repack_across_packs_refuted :
+  exists (store : id -> option bytes) (es : list centry) out,
+    sorted_ce es = true /\
+    repack false store (fun d _ => Some d) es = Ok out /\
+    ~ Forall2 (fun e h => expected_of store (fun d _ => Some d) e = Some h) es out.
+Proof. exact repack_across_packs_refuted_lemma. Qed.
+Print Assumptions repack_across_packs_refuted.
+
+(* The file-writer actor: every pack is stored under hash(file bytes) (SHA-256 in the code; any
+   function here), and the IndexPack handed to the indexer carries that same id, the packer's blob
+   list unchanged, a time, and no explicit size - in the order the packs were emitted. *)
+Theorem pack_id_is_hash_of_file : forall (hash : bytes -> id) (clock : nat -> Z) (packs : list (bytes * list iblob)),
+  let r := writer_run hash clock packs in
+  fst r = map (fun p => (hash (fst p), fst p)) packs /\
+  map wkey (snd r) = map (fun p => (hash (fst p), snd p)) packs /\
+  Forall (fun w => w_time w <> None /\ w_size w = None) (snd r).
+Proof. exact pack_id_is_hash_of_file_lemma. Qed.
+Print Assumptions pack_id_is_hash_of_file.
+
+(* Composition (packer + writer + repair-index): for every op sequence and save oracle, whatever
+   the run leaves in the backend `be` and the index `ix`, if the hash does not collide on the
+   written files, then from ANY subset `index` of the written index entries repair-index rebuilds,
+   up to order, exactly the written index (ids and blob lists). *)
+Theorem written_repo_index_rebuildable : forall (enc : bytes -> bytes) (dec : bytes -> option bytes)
+    (hash : bytes -> id) clock tpe ops be ix index read_all,
+  (forall x, dec (enc x) = Some x) -> (forall x, length (enc x) = (length x + 32)%nat) ->
+  Forall wf_op ops ->
+  packer_with_writer enc hash clock tpe ops = Ok (be, ix) ->
+  (forall p q, In p be -> In q be -> fst p = fst q -> snd p = snd q) ->
+  incl index (map wkey ix) ->
+  exists r, rebuild_index dec read_all be index = Ok r /\ Permutation r (map wkey ix).
+Proof. exact (fun enc dec hash clock tpe ops be ix index ra H1 H2 => written_repo_rebuildable_lemma enc dec H1 H2 hash clock tpe ops be ix index ra). Qed.
+Print Assumptions written_repo_index_rebuildable.
 
 (* PackHeader::from_file on a 3-byte file without size hint (what repair-index does for a
    truncated, unindexed pack): `pack_size - read_size` underflows; and a length field >= 2^32-4
